@@ -114,6 +114,10 @@ trait Comp: Sized {
     fn census(&self, _u: u64) -> String {
         "n/a".into()
     }
+    /// `len,cap,is_empty` of a cache (None for the estimator / cost tracker)
+    fn sizes(&self) -> Option<String> {
+        None
+    }
     fn has_cb(&self) -> bool {
         false
     }
@@ -445,6 +449,9 @@ impl<K: KeyKind, E: OnEvictCallback + Clone, S: BuildHasher + Clone> Comp for Ra
     fn census(&self, u: u64) -> String {
         census_of::<K, _>(&self.c, u)
     }
+    fn sizes(&self) -> Option<String> {
+        Some(format!("{},{},{}", self.c.len(), self.c.cap(), self.c.is_empty()))
+    }
     fn has_cb(&self) -> bool {
         true
     }
@@ -514,6 +521,9 @@ impl<K: KeyKind, S: BuildHasher + Clone> Comp for SlruComp<K, S> {
     }
     fn census(&self, u: u64) -> String {
         census_of::<K, _>(&self.c, u)
+    }
+    fn sizes(&self) -> Option<String> {
+        Some(format!("{},{},{}", self.c.len(), self.c.cap(), self.c.is_empty()))
     }
     fn tracked(&self) -> bool {
         K::TRACKED
@@ -591,6 +601,9 @@ impl<K: KeyKind, S: BuildHasher> Comp for TwoQComp<K, S> {
     }
     fn census(&self, u: u64) -> String {
         census_of::<K, _>(&self.c, u)
+    }
+    fn sizes(&self) -> Option<String> {
+        Some(format!("{},{},{}", self.c.len(), self.c.cap(), self.c.is_empty()))
     }
     fn tracked(&self) -> bool {
         K::TRACKED
@@ -674,6 +687,9 @@ impl<K: KeyKind, S: BuildHasher> Comp for ArcComp<K, S> {
     }
     fn census(&self, u: u64) -> String {
         census_of::<K, _>(&self.c, u)
+    }
+    fn sizes(&self) -> Option<String> {
+        Some(format!("{},{},{}", self.c.len(), self.c.cap(), self.c.is_empty()))
     }
     fn tracked(&self) -> bool {
         K::TRACKED
@@ -846,6 +862,9 @@ impl<K: KeyKind, S: BuildHasher + Clone> Comp for WtComp<K, S> {
     fn census(&self, u: u64) -> String {
         census_of::<K, _>(&self.c, u)
     }
+    fn sizes(&self) -> Option<String> {
+        Some(format!("{},{},{}", self.c.len(), self.c.cap(), self.c.is_empty()))
+    }
     fn tracked(&self) -> bool {
         K::TRACKED
     }
@@ -1014,6 +1033,9 @@ fn drive<C: Comp>(
                                     }
                                     if m.tracked() {
                                         s.push_str(&format!(" | dr={}", drs));
+                                    }
+                                    if let Some(sz) = m.sizes() {
+                                        s.push_str(&format!(" | sz={}", sz));
                                     }
                                     s.push_str(&format!(" | au={}", m.audit()));
                                     writeln!(out, "{}", s).unwrap();
